@@ -115,6 +115,8 @@ func (g *Gen) verifyFunc(fc *FuncContract) (*VC, error) {
 				return vc, fmt.Errorf("%s: ghostvar %s: 'empty' needs a map type", fc.Key, gv.Name)
 			}
 			init = vc.d.constArray(vc.d.sortOf(gm.key), vc.d.sortOf(gm.val), vc.d.zero(gm.val))
+		} else if _, isNil := gv.Init.(*ENil); isNil {
+			init = vc.d.zero(ty)
 		} else {
 			fr.bindParams(env)
 			t, err := env.expr(gv.Init)
@@ -337,14 +339,21 @@ func (fr *Frame) loopEnv(li *loopInfo, st *State) *SpecEnv {
 			}
 		}
 	}
-	// map iterators: #visited
-	for it, key := range fr.iterVis {
-		rng := it.(*ssa.Range)
-		if li.blocks[rng.Block()] {
-			continue
+	// map iterators: #visited = the visited-set of the map range advanced by THIS loop
+	var its []ssa.Value
+	for it := range fr.iterVis {
+		for b := range li.blocks {
+			for _, ins := range b.Instrs {
+				if nx, ok := ins.(*ssa.Next); ok && nx.Iter == it && nx.Block() == li.header {
+					its = append(its, it)
+				}
+			}
 		}
+	}
+	if len(its) == 1 {
+		rng := its[0].(*ssa.Range)
 		mt := rng.X.Type().Underlying().(*types.Map)
-		env.hash["visited"] = tv{t: vc.stGet0(st, key), ty: &ghostMap{mt.Key(), tBool}}
+		env.hash["visited"] = tv{t: vc.stGet0(st, fr.iterVis[its[0]]), ty: &ghostMap{mt.Key(), tBool}}
 	}
 	return env
 }
